@@ -160,6 +160,26 @@ def judge(case):
             err = spec_ok(once, blk.lines, cfg)
             if err:
                 bad('textblock-indent-twice', f'{how} header={header!r}: second plain indent(): {err}')
+        # a header given as a TextBlock OBJECT: never indented - neither with the owning block nor later through the
+        # header object itself (indent / append / trim / lines setter on it must not reach the owning block)
+        for how in ('arg', 'preset'):
+            hdr_obj = TextBlock(['Hdr', '  Hdr2'])
+            blk = TextBlock(list(lines), header=hdr_obj)
+            if how == 'arg':
+                blk.indent(mk_indentizer(cfg))
+            else:
+                blk.set_indentor(mk_indentizer(cfg)).indent()
+            expect = 'Hdr\n  Hdr2\n' + ''.join(x + '\n' for x in blk.lines)
+            if str(blk) != expect or hdr_obj.lines != ['Hdr', '  Hdr2']:
+                bad('textblock-object-header-indented', f'{how}: str={str(blk)!r} expected={expect!r} header object={hdr_obj.lines!r}')
+            hdr_obj.indent(mk_indentizer(cfg))
+            if str(blk) != expect:
+                bad('header-follows-later-indent-of-header-object', f'{how}: str={str(blk)!r} expected={expect!r}')
+            hdr_obj.append('more')
+            hdr_obj.trim()
+            hdr_obj.lines = ['x']
+            if str(blk) != expect:
+                bad('header-follows-later-change-of-header-object', f'{how}: str={str(blk)!r} expected={expect!r}')
         # default indentor of a TextBlock = 4 spaces (documented module default)
         blk = TextBlock(list(lines)).indent()
         err = spec_ok(lines, blk.lines, {'indentor': 'SPACES', 'count': 4, 'mode': None,
